@@ -600,6 +600,55 @@ fn search_label_collision() {
     }
 }
 
+// ---------------------------------------------------------------- error traces (C15, run-time clause)
+// ops[0] = (_, depth, pre): `depth` nested static calls main -> f1 -> .. -> f_depth, `pre` harmless cards before the
+// interesting card of every function; every further op wraps the failing card (a call of a native function that does
+// not exist) in one more parent card.  The error's trace must start at the failing card and continue with the call
+// cards from the innermost to the outermost.
+fn run_error_trace(ops: &[Op]) {
+    let last = ops.len() - 1;
+    let depth = (ops[0].1 % 4) as usize;
+    let pre = (ops[0].2.unsigned_abs() % 4) as usize;
+    let mut failing = Card::call_native("no_such_native_function", vec![]);
+    for o in &ops[1..] {
+        let pad = |n: u64| -> Vec<Card> { (0..n).map(|i| Card::scalar_int(i as i64)).collect() };
+        failing = match o.0 % 11 {
+            0 => Card::set_global_var("w", failing),
+            1 => Card::return_card(failing),
+            2 => { let mut v: Vec<Card> = (0..(o.1 % 3)).map(|_| CardBody::ScalarNil.into()).collect(); v.push(failing); Card::composite_card("c", v) }
+            3 => Card::repeat(failing, None, Card::scalar_int(1)),
+            4 => Card::repeat(Card::scalar_int(1), None, failing),
+            5 => Card::dynamic_call(failing, pad(o.1 % 3)),
+            6 => { let mut v = pad(o.1 % 3); v.push(failing); Card::dynamic_call(Card::scalar_int(0), v) }
+            7 => CardBody::IfTrue(Box::new([Card::scalar_int(1), failing])).into(),
+            8 => { let mut v = pad(o.1 % 3); v.push(failing); CardBody::Array(v).into() }
+            9 => CardBody::Add(Box::new([Card::scalar_int(1), failing])).into(),
+            _ => CardBody::IfElse(Box::new([Card::scalar_int(0), Card::scalar_int(1), failing])).into(),
+        };
+    }
+    let pre_cards = |n: usize| -> Vec<Card> { (0..n).map(|i| Card::set_global_var("p", Card::scalar_int(i as i64))).collect() };
+    let mut functions = vec![];
+    for k in 0..=depth {
+        let name = if k == 0 { "main".to_string() } else { format!("f{k}") };
+        let mut cards = pre_cards(pre);
+        if k == depth { cards.push(failing.clone()); } else { cards.push(Card::call_function(format!("f{}", k + 1), vec![])); }
+        cards.push(Card::set_global_var("after", Card::scalar_int(1)));
+        functions.push((name, Function::default().with_cards(cards)));
+    }
+    let module = Module { functions, ..Default::default() };
+    let program = match compile(module.clone(), None) { Ok(p) => p, Err(e) => fail("error_trace", ops, last, format!("does not compile: {:?}", e.payload)) };
+    let mut vm = Vm::new(()).unwrap().with_max_iter(10_000);
+    let err = match vm.run(&program) { Err(e) => e, Ok(_) => fail("error_trace", ops, last, "the run succeeded although it calls a native function that does not exist".into()) };
+    let name_of = |i: usize| -> String { err.trace.get(i).and_then(|t| module.get_card(&t.index).ok()).map(|c| format!("{} {:?}", c.name(), err.trace[i].index.card_index.indices.as_slice())).unwrap_or_else(|| "<nothing>".into()) };
+    let first_ok = err.trace.first().and_then(|t| module.get_card(&t.index).ok()).map(|c| matches!(c.body, CardBody::CallNative(_))).unwrap_or(false);
+    if !first_ok { fail("error_trace", ops, last, format!("trace[0] resolves to `{}`, not to the failing CallNative card (depth {depth}, {} parents)", name_of(0), ops.len() - 1)); }
+    for i in 1..=depth {
+        let want = format!("f{}", depth - i + 1);
+        let ok = err.trace.get(i).and_then(|t| module.get_card(&t.index).ok()).map(|c| matches!(&c.body, CardBody::Call(j) if j.function_name == want)).unwrap_or(false);
+        if !ok { fail("error_trace", ops, last, format!("trace[{i}] resolves to `{}`, not to the card that calls {want}", name_of(i))); }
+    }
+}
+
 fn dispatch(unit: &str, ops: &[Op], variant: u64) {
     VARIANT.store(variant, std::sync::atomic::Ordering::Relaxed);
     match unit {
@@ -611,6 +660,7 @@ fn dispatch(unit: &str, ops: &[Op], variant: u64) {
         "object_laws" => run_object_laws(ops),
         "name_resolution" => run_name_resolution(ops, variant % 4 == 3),
         "label_collision" => run_label_collision(ops),
+        "error_trace" => run_error_trace(ops),
         _ => { eprintln!("unknown unit {unit}"); std::process::exit(2); }
     }
 }
